@@ -109,6 +109,9 @@ def check_single(case, st):
                             continue
                         reduced = (bk == "omitted" and lam == 1)
                         fl = [("dict", lambda: dict(DL))]
+                        if nterms == 2 and bk == "omitted":
+                            # same polynomial, terms given in the opposite order (the special-form recognisers index the terms)
+                            fl += [("dict-rev", lambda: dict(reversed(list(DL.items()))))]
                         if reduced:
                             fl += [("poly", lambda: Poly(DL)),
                                    ("expr", lambda: sum((v * _prod([var(l) for l in k]) for k, v in DL.items()), Model()))]
